@@ -364,7 +364,7 @@ def check_sweep(spec, sweep_no, before, trace, data, y_ref, fail):
 
     # ---- alpha = mean of the transformed observations
     st_alpha = trace["snaps"][1]
-    if N > 0 and not close(st_alpha["alpha"], float(np.mean(y_ref)), float(np.mean(np.abs(y_ref)))):
+    if N > 0 and not close(st_alpha["alpha"], float(np.mean(y_ref)), float(np.mean(np.abs(y_ref))) + 1.0):
         fail("alpha is not the mean of the transformed observations", st_alpha["alpha"], float(np.mean(y_ref)), "C08:alpha")
     if N == 0 and st_alpha["alpha"] != before["alpha"]:
         fail("alpha changed without observations", st_alpha["alpha"], before["alpha"], "C08:alpha")
@@ -670,7 +670,8 @@ def run_case(spec, res, queue, report=True):
     d2 = np.array([r[2] for r in spec["rows"]], dtype=int)
     data = (y, cl, d1, d2)
     y_ref = logit(np.clip(np.array(spec["obs"], dtype=np.float64), 0.01, 0.99)) if N else np.zeros(0)
-    if N and not close(y, y_ref, np.abs(y_ref)):
+    # float32 rounding of the observation itself moves logit(p) by ~6e-8 / (p (1 - p)) <= 6e-6
+    if N and not close(y, y_ref, np.abs(y_ref) + 1.0):
         res.fail("stored observations are not logit(clip(obs, 0.01, 0.99))", case, y.tolist()[:8], y_ref.tolist()[:8], "C08:transform")
     if list(w.cline) != cl.tolist() or list(w.dd1) != d1.tolist() or list(w.dd2) != d2.tolist():
         res.fail("training tuples differ from the screen rows", case, [list(map(int, w.cline)), list(map(int, w.dd1)), list(map(int, w.dd2))], spec["rows"], "C08:rows")
@@ -744,7 +745,7 @@ def mvn_stream(ctx, res, lines, cbs):
     """sample_mvn_from_precision on its own with a recorded z (float64, well conditioned)"""
     import batchie.fast_mvn as fm
     rng = ctx.subrng("mvn")
-    for t in range(ctx.scale(40, 600)):
+    for t in range(ctx.scale(40, 2000)):
         g = np.random.default_rng(rng.randrange(2 ** 32))
         D = rng.randint(1, 6)
         A = g.standard_normal((D + 2, D))
@@ -773,7 +774,7 @@ def run(ctx, res):
     max_sweeps = ctx.scale(3, 5, 5)
     queue = []
     rng = ctx.subrng("main")
-    n_main = ctx.scale(60, 600, 400)
+    n_main = ctx.scale(150, 3000, 800)
     for t in range(n_main):
         spec = gen_spec(rng.randrange(2 ** 48), "main", max_sweeps)
         describe(spec, res)
